@@ -49,6 +49,40 @@ theorem four_sides_ok (vs : List Tok) : fourSides (minifySides vs) = fourSides v
 
 example : minifySides [tNum ['0'], tNum ['1'], tNum ['0'], tNum ['1']] = [tNum ['0'], tNum ['1']] := by decide
 
+/-- **border-color**: after the per-token rewrite (`currentcolor` → `initial`, colour shortening — `color_ok`), collapsing
+    all-equal values to one keeps (top, right, bottom, left) -/
+theorem border_color_ok (vs : List Tok) (h : vs.length ≤ 4) :
+    fourSides (minifyBorderColor vs) = fourSides (vs.map borderColorTok) := by
+  unfold minifyBorderColor
+  simp only
+  match hv : vs.map borderColorTok with
+  | [] => rfl
+  | [a] => simp
+  | [a, b] =>
+    simp only [List.all_cons, List.all_nil, Bool.and_true]
+    split
+    · rename_i he; have := eq_of_beq he; subst this; rfl
+    · rfl
+  | [a, b, c] =>
+    simp only [List.all_cons, List.all_nil, Bool.and_true]
+    split
+    · rename_i he
+      simp only [Bool.and_eq_true, beq_iff_eq] at he
+      obtain ⟨h1, h2⟩ := he; subst h1; subst h2; rfl
+    · rfl
+  | [a, b, c, d] =>
+    simp only [List.all_cons, List.all_nil, Bool.and_true]
+    split
+    · rename_i he
+      simp only [Bool.and_eq_true, beq_iff_eq] at he
+      obtain ⟨h1, h2, h3⟩ := he; subst h1; subst h2; subst h3; rfl
+    · rfl
+  | _ :: _ :: _ :: _ :: _ :: _ =>
+    have : (vs.map borderColorTok).length = vs.length := by simp
+    rw [hv] at this
+    simp at this
+    omega
+
 /-! ## (b) zero values lose their unit only where the grammar allows -/
 
 /-- output shape of `minify.Number`/`minify.Decimal` (property C08, clause 5 — a contract here): a result
